@@ -2,11 +2,11 @@
 (* Writes, for every class in scope and every structure of its schema, the radices of the value    *)
 (* slots (sizes of the slot domains) as JSON: the driver draws the digit vectors (all of them when  *)
 (* the product is small, a seeded covering sample otherwise) that MC_NeutralFile turns into         *)
-(* abstract instances.                                                                             *)
+(* abstract instances.  hist: the structure is a starting point of the histories (MC_NeutralHist). *)
 EXTENDS NeutralFile, Json, IOUtils, SequencesExt
 CONSTANT Classes
 Shapes == Flat([k \in 1..Cardinality(Classes) |-> LET c == SetToSeq(Classes)[k] IN
-             [si \in DOMAIN Structs(c) |-> [c |-> c, s |-> si, rad |-> Radices(c, si)]]])
+             [si \in DOMAIN Structs(c) |-> [c |-> c, s |-> si, rad |-> Radices(c, si), hist |-> HistStruct(c, Structs(c)[si])]]])
 ASSUME JsonSerialize(IOEnv.OUT, Shapes)
 VARIABLE x
 Spec == x = 0 /\ [][UNCHANGED x]_x
